@@ -6,11 +6,90 @@ From PV Require Import Proofs.TablesP Proofs.PrimP Proofs.HeaderP Proofs.Roundtr
 From Coq Require Import ZifyN ZifyNat ZifyBool.
 Open Scope Z_scope.
 
+(* ---------- the class of finding F-04a, restricted to what a value of the type can reach ---------- *)
+Fixpoint ty_refs (t : ty) : list nat :=
+  match t with
+  | TyRef n => [n]
+  | TyList a | TySet a => ty_refs a
+  | TyMap a b => ty_refs a ++ ty_refs b
+  | _ => []
+  end.
+Definition decl_refs (d : decl) : list nat :=
+  match d with
+  | DStruct fs _ _ => flat_map (fun f => ty_refs (f_ty f)) fs
+  | DUnion vs _ _ => flat_map (fun '(_, t) => ty_refs t) vs
+  | DTypedef t => ty_refs t
+  | DEnum _ => []
+  end.
+Definition rmem (n : nat) (R : list nat) : bool := existsb (Nat.eqb n) R.
+Definition refs_in (R : list nat) (t : ty) : bool := forallb (fun n => rmem n R) (ty_refs t).
+(* R is closed under "the declaration of n mentions m" *)
+Definition closed_refs (S : schema) (R : list nat) : bool :=
+  forallb (fun n => match lookup S n with Some d => forallb (fun m => rmem m R) (decl_refs d) | None => true end) R.
+Definition decls_no_tdbool (S : schema) (R : list nat) : bool :=
+  forallb (fun n => match lookup S n with Some d => decl_no_tdbool S d | None => true end) R.
+Fixpoint reach_n (S : schema) (fuel : nat) (R : list nat) : list nat :=
+  match fuel with
+  | O => R
+  | Datatypes.S f =>
+      reach_n S f (R ++ nodup Nat.eq_dec (filter (fun m => negb (rmem m R))
+                                            (flat_map (fun n => match lookup S n with Some d => decl_refs d | None => [] end) R)))
+  end.
+(* the declarations reachable from t (typedef targets, container components, struct fields, union variants), checked to be
+   closed -- so no adequacy of the iteration count is assumed -- contain no typedef-of-bool field *)
+Definition no_tdbool_reach (S : schema) (t : ty) : bool :=
+  let R := reach_n S (length S) (nodup Nat.eq_dec (ty_refs t)) in
+  closed_refs S R && refs_in R t && decls_no_tdbool S R.
+
+Lemma rmem_in n R : rmem n R = true -> In n R.
+Proof. unfold rmem. rewrite existsb_exists. intros (x & Hx & E). apply Nat.eqb_eq in E. subst. exact Hx. Qed.
+
 Section Size.
   Variable S : schema.
   Hypothesis Hwf : wf_schema S = true.
   Variable p : pk.
-  Hypothesis Hnb : p = PCompact -> no_tdbool S = true.
+  Variable R : list nat.
+  Hypothesis Hcl : p = PCompact -> closed_refs S R = true.
+  Hypothesis HnbR : p = PCompact -> decls_no_tdbool S R = true.
+
+  Lemma closed_decl n d m : p = PCompact -> rmem n R = true -> lookup S n = Some d -> In m (decl_refs d) -> rmem m R = true.
+  Proof.
+    intros Hp Hn Hl Hm. specialize (Hcl Hp). unfold closed_refs in Hcl. rewrite forallb_forall in Hcl.
+    specialize (Hcl _ (rmem_in _ _ Hn)). rewrite Hl in Hcl. rewrite forallb_forall in Hcl. exact (Hcl _ Hm).
+  Qed.
+
+  Lemma refs_resolve_n f : forall t, p = PCompact -> refs_in R t = true -> refs_in R (resolve_n S f t) = true.
+  Proof.
+    induction f as [|f IH]; intros t Hp H; [exact H|]. destruct t; try exact H.
+    cbn [resolve_n]. destruct (lookup S n) as [[| | |t']|] eqn:El; try exact H.
+    apply IH; [exact Hp|]. unfold refs_in. rewrite forallb_forall. intros m Hm.
+    unfold refs_in in H. cbn [ty_refs forallb] in H. apply andb_prop in H as [Hn _].
+    exact (closed_decl n _ m Hp Hn El Hm).
+  Qed.
+  Lemma refs_resolve t : (p = PCompact -> refs_in R t = true) -> p = PCompact -> refs_in R (resolve S t) = true.
+  Proof. intros H Hp. apply refs_resolve_n; auto. Qed.
+
+  Lemma refs_field n dfs kp ia f : (p = PCompact -> refs_in R (TyRef n) = true) -> lookup S n = Some (DStruct dfs kp ia) -> In f dfs ->
+    p = PCompact -> refs_in R (f_ty f) = true.
+  Proof.
+    intros H Hl Hin Hp. specialize (H Hp). unfold refs_in in H. cbn [ty_refs forallb] in H. apply andb_prop in H as [Hn _].
+    unfold refs_in. rewrite forallb_forall. intros m Hm. apply (closed_decl n _ m Hp Hn Hl).
+    cbn [decl_refs]. apply in_flat_map. exists f. split; assumption.
+  Qed.
+  Lemma refs_variant n vs vok kp id vt : (p = PCompact -> refs_in R (TyRef n) = true) -> lookup S n = Some (DUnion vs vok kp) ->
+    In (id, vt) vs -> p = PCompact -> refs_in R vt = true.
+  Proof.
+    intros H Hl Hin Hp. specialize (H Hp). unfold refs_in in H. cbn [ty_refs forallb] in H. apply andb_prop in H as [Hn _].
+    unfold refs_in. rewrite forallb_forall. intros m Hm. apply (closed_decl n _ m Hp Hn Hl).
+    cbn [decl_refs]. apply in_flat_map. exists (id, vt). split; assumption.
+  Qed.
+
+  Lemma decl_ok n d : (p = PCompact -> refs_in R (TyRef n) = true) -> lookup S n = Some d -> p = PCompact -> decl_no_tdbool S d = true.
+  Proof.
+    intros H Hl Hp. specialize (H Hp). unfold refs_in in H. cbn [ty_refs forallb] in H. apply andb_prop in H as [Hn _].
+    specialize (HnbR Hp). unfold decls_no_tdbool in HnbR. rewrite forallb_forall in HnbR.
+    specialize (HnbR _ (rmem_in _ _ Hn)). rewrite Hl in HnbR. exact HnbR.
+  Qed.
 
   (* the only place where size() and encode announce different TTypes *)
   Lemma l_field_begin_size_ttype t id c :
@@ -24,27 +103,30 @@ Section Size.
     destruct (ttype_of_ty S t); cbn in Hok, Hb; try discriminate; reflexivity.
   Qed.
 
-  Lemma no_tdbool_field n dfs kp ia f : lookup S n = Some (DStruct dfs kp ia) -> In f dfs ->
+  Lemma no_tdbool_field n dfs kp ia f : (p = PCompact -> refs_in R (TyRef n) = true) -> lookup S n = Some (DStruct dfs kp ia) -> In f dfs ->
     p = PCompact -> tdbool_field S (f_ty f) = false.
   Proof.
-    intros Hl Hin Hp. specialize (Hnb Hp). unfold no_tdbool in Hnb. rewrite forallb_forall in Hnb.
-    specialize (Hnb _ (nth_error_In _ _ Hl)). cbn [decl_no_tdbool] in Hnb.
+    intros Hr Hl Hin Hp. pose proof (decl_ok n _ Hr Hl Hp) as Hnb. cbn [decl_no_tdbool] in Hnb.
     rewrite forallb_forall in Hnb. specialize (Hnb _ Hin). apply negb_true_iff in Hnb. exact Hnb.
   Qed.
 
-  Lemma no_tdbool_variant n vs vok kp id vt : lookup S n = Some (DUnion vs vok kp) -> In (id, vt) vs ->
+  Lemma no_tdbool_variant n vs vok kp id vt : (p = PCompact -> refs_in R (TyRef n) = true) -> lookup S n = Some (DUnion vs vok kp) -> In (id, vt) vs ->
     p = PCompact -> tdbool_field S vt = false.
   Proof.
-    intros Hl Hin Hp. specialize (Hnb Hp). unfold no_tdbool in Hnb. rewrite forallb_forall in Hnb.
-    specialize (Hnb _ (nth_error_In _ _ Hl)). cbn [decl_no_tdbool] in Hnb.
+    intros Hr Hl Hin Hp. pose proof (decl_ok n _ Hr Hl Hp) as Hnb. cbn [decl_no_tdbool] in Hnb.
     rewrite forallb_forall in Hnb. specialize (Hnb _ Hin). cbn in Hnb. apply negb_true_iff in Hnb. exact Hnb.
   Qed.
 
+  Ltac sub_refs t Hr Eres :=
+    let Hp := fresh "Hp" in let Q := fresh "Q" in
+    intros Hp; pose proof (refs_resolve t Hr Hp) as Q; rewrite Eres in Q;
+    first [ exact Q
+          | unfold refs_in in Q; cbn [ty_refs] in Q; rewrite forallb_app in Q; apply andb_prop in Q as [? ?]; assumption ].
 
-  Theorem size_as_len v : forall t, has_type S t v = true ->
+  Theorem size_as_len v : forall t, has_type S t v = true -> (p = PCompact -> refs_in R t = true) ->
     forall c, size_ty S p t v c = len_val p (to_tval S t v) c.
   Proof.
-    induction v using gval_ind'; intros t Ht c.
+    induction v using gval_ind'; intros t Ht Hrf c.
     1-10: cbn [has_type size_ty to_tval len_val] in *; res_cases S t; try reflexivity.
     - decl_cases S n. reflexivity.
     - (* list *)
@@ -58,7 +140,7 @@ Section Size.
       rewrite size_elems_cons. cbn [tv_elems].
       change (len_elems p (to_tval S et x :: tv_elems S et r)) with
         (len_val p (to_tval S et x) +++ len_elems p (tv_elems S et r)).
-      apply lseq_ext; [apply Hx; exact He1|intros; apply IHr; auto].
+      apply lseq_ext; [apply Hx; [exact He1|sub_refs t Hrf Eres]|intros; apply IHr; auto].
     - (* set *)
       rewrite has_type_set in Ht. rewrite size_ty_set, to_tval_set. res_cases S t.
       apply andb_prop in Ht as [_ He].
@@ -70,7 +152,7 @@ Section Size.
       rewrite size_elems_cons. cbn [tv_elems].
       change (len_elems p (to_tval S et x :: tv_elems S et r)) with
         (len_val p (to_tval S et x) +++ len_elems p (tv_elems S et r)).
-      apply lseq_ext; [apply Hx; exact He1|intros; apply IHr; auto].
+      apply lseq_ext; [apply Hx; [exact He1|sub_refs t Hrf Eres]|intros; apply IHr; auto].
     - (* map *)
       rewrite has_type_map in Ht. rewrite size_ty_map, to_tval_map. res_cases S t.
       apply andb_prop in Ht as [_ He].
@@ -85,10 +167,11 @@ Section Size.
       change (len_pairs p ((to_tval S kt a, to_tval S vt b) :: tv_pairs S kt vt r)) with
         (len_val p (to_tval S kt a) +++ len_val p (to_tval S vt b) +++ len_pairs p (tv_pairs S kt vt r)).
       apply lseq_ext; [|intros; apply IHr; auto].
-      apply lseq_ext; [apply Ha; exact He1|intros; apply Hb; exact He2].
+      apply lseq_ext; [apply Ha; [exact He1|sub_refs t Hrf Eres]|intros; apply Hb; [exact He2|sub_refs t Hrf Eres]].
     - (* struct *)
       rewrite has_type_struct in Ht. rewrite size_ty_struct, to_tval_struct. destruct unk; [|discriminate].
       res_cases S t. decl_cases S n.
+      assert (Hrn : p = PCompact -> refs_in R (TyRef n) = true) by sub_refs t Hrf Eres.
       pose proof (ht_struct_inv S Hwf _ _ _ _ _ Elk Ht) as HF. clear Ht.
       change (len_val p (VStruct (tv_fields S dfs fs))) with
         (l_struct_begin p +++ len_fields p (tv_fields S dfs fs) +++ l_field_stop p +++ l_struct_end p).
@@ -104,11 +187,12 @@ Section Size.
       apply lseq_ext; [|intros; apply IHr; auto].
       destruct (field_ok_inv _ _ Hok) as (_ & Hto & Hnv & _).
       unfold size_field. rewrite Hnv, (to_tval_ttype _ _ _ Hty).
-      apply lseq_ext; [|reflexivity]. apply lseq_ext; [|intros c1; apply Hx; exact Hty].
+      apply lseq_ext; [|reflexivity]. apply lseq_ext; [|intros c1; apply Hx; [exact Hty|exact (refs_field n _ _ _ f Hrn Elk (proj1 (find_field_in _ _ _ Hf)))]].
       apply l_field_begin_size_ttype; [exact Hto|].
-      eapply no_tdbool_field; [exact Elk|]. apply (find_field_in _ _ _ Hf).
+      eapply no_tdbool_field; [exact Hrn|exact Elk|]. apply (find_field_in _ _ _ Hf).
     - (* union *)
       rewrite has_type_union in Ht. rewrite size_ty_union, to_tval_union. res_cases S t. decl_cases S n.
+      assert (Hrn : p = PCompact -> refs_in R (TyRef n) = true) by sub_refs t Hrf Eres.
       destruct (find_variant vs id) as [vt|] eqn:Ev; [|discriminate].
       destruct (is_void (resolve S vt)) eqn:Evoid; [reflexivity|].
       change (len_val p (VStruct [(id, to_tval S vt v)])) with
@@ -117,7 +201,7 @@ Section Size.
          l_field_stop p +++ l_struct_end p).
       apply lseq_ext; [|reflexivity]. apply lseq_ext; [|reflexivity]. apply lseq_ext; [reflexivity|].
       intros c1. rewrite lseq_ret0_r, (to_tval_ttype _ _ _ Ht).
-      apply lseq_ext; [|reflexivity]. apply lseq_ext; [|intros c2; apply IHv; exact Ht].
+      apply lseq_ext; [|reflexivity]. apply lseq_ext; [|intros c2; apply IHv; [exact Ht|exact (refs_variant n _ _ _ id vt Hrn Elk (find_variant_in _ _ _ Ev))]].
       pose proof (find_variant_in _ _ _ Ev) as Hin.
       apply l_field_begin_size_ttype; [eapply (wf_variant_ok S Hwf); eauto|eapply no_tdbool_variant; eauto].
     - discriminate.
@@ -125,20 +209,29 @@ Section Size.
 End Size.
 
 (* ---------- C04 at the generated-code level ---------- *)
+Lemma reach_hyps S p t : (p = PCompact -> no_tdbool_reach S t = true) ->
+  let R := reach_n S (length S) (nodup Nat.eq_dec (ty_refs t)) in
+  (p = PCompact -> closed_refs S R = true) /\ (p = PCompact -> decls_no_tdbool S R = true) /\ (p = PCompact -> refs_in R t = true).
+Proof.
+  intros H R. repeat split; intros Hp; specialize (H Hp); unfold no_tdbool_reach in H; fold R in H;
+    apply andb_prop in H as [H H3]; apply andb_prop in H as [H1 H2]; assumption.
+Qed.
+
 Theorem size_exact : forall S p k t v,
-  wf_schema S = true -> has_type S t v = true -> (p = PCompact -> no_tdbool S = true) ->
+  wf_schema S = true -> has_type S t v = true -> (p = PCompact -> no_tdbool_reach S t = true) ->
   forall c ss c', pend_ok c -> enc_ty S p k t v c = Ok (ss, c') ->
     size_ty S p t v c = Ok (Z.of_nat (length (flat ss)), c') /\ pend_ok c'.
 Proof.
   intros S p k t v Hwf Ht Hnb c ss c' Hp He.
+  destruct (reach_hyps S p t Hnb) as (H1 & H2 & H3).
   rewrite (enc_as_tval S Hwf p k v t Ht) in He.
-  rewrite (size_as_len S Hwf p Hnb v t Ht).
+  rewrite (size_as_len S Hwf p _ H1 H2 v t Ht H3).
   exact (len_val_exact p k _ (to_tval_wt S Hwf v t Ht) c ss c' Hp He).
 Qed.
 
 (* the top-level entry points: fresh protocol object *)
 Corollary gen_size_exact : forall S p k t v b,
-  wf_schema S = true -> has_type S t v = true -> (p = PCompact -> no_tdbool S = true) ->
+  wf_schema S = true -> has_type S t v = true -> (p = PCompact -> no_tdbool_reach S t = true) ->
   gen_encode S p k t v = Ok b -> gen_size S p t v = Ok (Z.of_nat (length b)).
 Proof.
   intros S p k t v b Hwf Ht Hnb He. unfold gen_encode in He. unfold gen_size.
@@ -190,3 +283,12 @@ Proof.
   split; [eexists; split; [vm_compute; reflexivity|cbn; lia]|].
   split; [vm_compute; reflexivity|]. split; vm_compute; reflexivity.
 Qed.
+
+(* the condition follows the TYPE: in a schema with a typedef-of-bool field somewhere (no_tdbool false) a type that does not reach
+   it keeps the compact size guarantee, a type that reaches it (directly, through a union variant) does not *)
+Definition S2 : schema := S0 ++ [DStruct [mkField 1 Required TyI32 None; mkField 2 Optional (TyList (TyRef 3)) None] false false].
+Example no_tdbool_reach_nonvacuous :
+  no_tdbool S2 = false /\ no_tdbool_reach S2 (TyRef 4) = true /\ no_tdbool_reach S2 (TyMap TyString (TyRef 4)) = true /\
+  no_tdbool_reach S2 (TyRef 1) = false /\ no_tdbool_reach S2 (TyRef 2) = false /\
+  wf_schema S2 = true /\ has_type S2 (TyRef 4) (GStruct [(1, GI32 5); (2, GList [GEnum 1])] []) = true.
+Proof. vm_compute. repeat split; reflexivity. Qed.
